@@ -17,11 +17,29 @@ import (
 func GenProject(r *core.Rng, flavour string) Project {
 	n := r.Range(2, 6)
 	p := Project{Dir: "q", Files: map[string]string{}, Entry: "main.fer"}
+	// in some projects two modules have import paths that differ only in '/' vs '_'
+	// (q/k_v and q/k/v): whatever is derived from the path must keep them apart the
+	// same way in every compile
+	clash := n >= 3 && r.Chance(1, 5)
 	name := func(i int) string {
 		if i == 0 {
 			return "main"
 		}
+		if clash && i == 1 {
+			return "k_v"
+		}
+		if clash && i == 2 {
+			return "k/v"
+		}
 		return fmt.Sprintf("m%d", i)
+	}
+	// qual is the name an importer uses for module i (the last path element)
+	qual := func(i int) string {
+		nm := name(i)
+		if k := strings.LastIndex(nm, "/"); k >= 0 {
+			return nm[k+1:]
+		}
+		return nm
 	}
 	// DAG: i imports j > i
 	imports := make([][]int, n)
@@ -88,7 +106,7 @@ func GenProject(r *core.Rng, flavour string) Project {
 		}
 		for _, j := range imports[i] {
 			if r.Chance(1, 4) {
-				fmt.Fprintf(&b, "import \"q/%s\" as x%s;\n", name(j), name(j))
+				fmt.Fprintf(&b, "import \"q/%s\" as x%s;\n", name(j), qual(j))
 			} else {
 				fmt.Fprintf(&b, "import \"q/%s\";\n", name(j))
 			}
@@ -107,10 +125,10 @@ func GenProject(r *core.Rng, flavour string) Project {
 		b.WriteString("\n")
 		ref := func(j int) string {
 			// how module j is referred to in this file
-			if strings.Contains(b.String(), fmt.Sprintf("import \"q/%s\" as x%s;", name(j), name(j))) {
-				return "x" + name(j)
+			if strings.Contains(b.String(), fmt.Sprintf("import \"q/%s\" as x%s;", name(j), qual(j))) {
+				return "x" + qual(j)
 			}
-			return name(j)
+			return qual(j)
 		}
 		var body []string // statements of Run()
 
@@ -212,7 +230,7 @@ func GenProject(r *core.Rng, flavour string) Project {
 			}
 		}
 		if i == cycleFrom && cycleTo != cycleFrom {
-			body = append(body, fmt.Sprintf("acc = acc + %s::Run();", name(cycleTo)))
+			body = append(body, fmt.Sprintf("acc = acc + %s::Run();", qual(cycleTo)))
 		}
 		// a private helper in every module of the error flavour: using it from an
 		// importer gives a diagnostic with labels in two files
